@@ -69,6 +69,7 @@ def c01(tier, seed):
     from bounded import hist
     run.add_bounded("solve table after edit histories (solve, edit, solve)", hist.random_history_family(seed, _n(tier, 200, 4000), _n(tier, 6, 10), ["C01", "C16"]))
     run.notes.append("composition (paper argument, not machine-checked): per-node laws + call-site obligations + _solve contract give the row-level statement within K*(vtol+itol)")
+    run.add_bounded("a load moved under its own name (solve, del_comp, add_comp, solve)", BF_.move_family(seed, _n(tier, 150, 4000), ["C01"]))
     _alias(run, 'C01', seed, tier)
     return run.finish()
 
@@ -97,6 +98,7 @@ def c04(tier, seed):
     run.add_bounded("every single edit / configuration call from the base systems, then the table oracle", hist.single_call_family(["C04"]))
     run.add_bounded("solve, re-configure phases, solve vs fresh system", BF.reconfig_family(seed, _n(tier, 250, 6000), ["C04"]))
     run.add_bounded("dead rails under loose solver tolerances", BF.loose_dead_family(seed, _n(tier, 300, 8000)))
+    run.add_bounded("a load moved under its own name (solve, del_comp, add_comp, solve)", BF.move_family(seed, _n(tier, 200, 5000), ["C04"]))
     SL.solve_loop(run)
     run.notes.append("composition by depth (paper lemma): parent outputs 0 V => child is dead => outputs 0 V and draws 0 A")
     return run.finish()
@@ -224,6 +226,7 @@ def c16(tier, seed):
     from bounded import diagrams as DG
     run.add_bounded("diagrams of built and edited systems show exactly the final structure", DG.diagram_family(seed, _n(tier, 60, 1500)))
     run.notes.append("whole-history equivalence of two System objects is not a per-function contract: decided bounded (edited vs rebuilt from an independent reference model)")
+    run.add_bounded("a load moved under its own name (solve, del_comp, add_comp, solve)", BF.move_family(seed, _n(tier, 150, 4000), ["C16"]))
     _alias(run, 'C16', seed, tier)
     return run.finish()
 
